@@ -159,12 +159,12 @@ def badLeaves (m : Mon) (s : Seen) : List Nat :=
       | some st => if st.isEnd then none else some old
       | none => some old)
 
-/-- ... and are remembered: if nothing runs on the region now, its record names an operator that
-    ended (this one, or one that ended in this same event) -/
+/-- ... and are remembered: the record of its region (kept whether or not another operator runs there now)
+    names an operator that ended (this one, or one that ended in this same event) -/
 def badRecords (m : Mon) (s : Seen) : List Nat :=
   m.prev.running.filterMap (fun x =>
     let (r, old, _) := x
-    if (runningOn s r).isSome then none
+    if (runningOn s r).map (·.1) == some old then none
     else match s.records.find? (fun y => y.1 == r) with
       | some (_, id, st) =>
         if st.isEnd && statusOf s id == some st &&
